@@ -7,11 +7,21 @@ Every run of the check compares the real engine's rows with `Spec.rows` on every
 (requests `spec-exec`; a mismatch is a violation with that query as the failing input) and with
 `Interp` (the mirror of `execution.rs`; requests `exec`).
 
-Target theorem (full statement, being closed fragment by fragment by induction over the query tree):
+Target theorem (full statement in Props/C01Main.lean, closed fragment by fragment by induction
+over the query tree; `toIR` = the model of the frontend, compared with the real frontend's IR query
+by query by C11):
 
-    theorem interp_eq_spec (S : SchemaView) (q : Spec.Query) (args) (D : Data) :
-        toIR S q = .ok ir → ArgsOK ir args → Conforms S D →
-        interpret (Env.ofData D args) ir = Spec.rows ⟨D, args, S.edges⟩ q
+    theorem interp_eq_spec (S : SchemaView) (q : Spec.Query) (ir : IRQuery) (D : Data) (args) :
+        toIR S q = .ok ir → Hyps ⟨S, D, args, edges⟩ 3 q →
+        (interpret { Env.ofData D args with useLimits := false } ir).toOption =
+          (Spec.rows ⟨D, args, edges⟩ q).toOption
+
+CLOSED: fragments F0 (single vertex) and F1 (plain and @optional edges in arbitrary nesting,
+coercions, filters on variables and on tags of the same / earlier vertices incl. tags from missing
+optional scopes, edge parameters): `interp_eq_spec_F0`, `interp_eq_spec_F1`,
+`interp_ok_iff_spec_ok_F1`, `interp_eq_spec_F1_default_env`.  OPEN: F2 (@recurse; the stage lemma
+`recurse_is_reach` below is its core), F3 (@fold).  Every run reports how many generated queries
+fall into the proved fragment with the hypotheses `Hyps` satisfied (driver request `hyps-c01`).
 
 Proved so far — the stage lemmas the induction is assembled from, each tying one engine mechanism
 of the mirror model to one clause of the property:
@@ -27,6 +37,7 @@ of the mirror model to one clause of the property:
 import TrustfallModel.Proofs.RecDfs
 import TrustfallModel.Proofs.InterpHom
 import TrustfallModel.Model.Spec
+import TrustfallModel.Props.C01Main
 
 namespace TF.C01
 open TF TF.Engine
@@ -152,3 +163,7 @@ end TF.C01
 #print axioms TF.C01.recurse_is_preorder_dfs
 #print axioms TF.C01.recurse_is_reach
 #print axioms TF.C01.rows_are_blocks
+#print axioms TF.C01.interp_eq_spec_F0
+#print axioms TF.C01.interp_eq_spec_F1
+#print axioms TF.C01.interp_ok_iff_spec_ok_F1
+#print axioms TF.C01.interp_eq_spec_F1_default_env
